@@ -1,4 +1,5 @@
 import Evenio.Proofs.FrameFlush
+import Evenio.Proofs.DispositionFlush
 /-!
 # C13 — unwinding drops every pending event exactly once
 
@@ -25,9 +26,10 @@ the stack below that segment (the siblings not yet popped, at every level of the
   queued by completed deliveries": the guard is handed every event that was sent but not delivered — each once — and
   nothing else.
 
-The in-flight event `x` itself is disposed of by the delivery (for `deliverOne`: the `tryCatch` around `runHandler`
-drops it if `info.needsDrop`; a handler stops at `take`, so an unwinding handler never owns it); that half is specific
-to `deliverOne` and is not claimed here. A delivery failing with `ub`/`assert` is a finding, not a Rust panic; the model
+The in-flight event `x` itself is disposed of by the delivery: for `deliverOne`, `flush_panic_inflight_once` shows that
+when the failing delivery panics, `x` has been written to the event ledger exactly once when the guard takes over — by
+the `take` of a handler ("already taken": ownership flag set, the guard leaves it alone) or by the guard's first half
+(flag clear) — never both. A delivery failing with `ub`/`assert` is a finding, not a Rust panic; the model
 then stops without running the guard (`flushWith_nonpanic_exit`). -/
 namespace Evenio
 
@@ -170,6 +172,25 @@ theorem flush_panic_ledger {w : World} {es : List QItem} {c : String} {log : Lis
   rw [dropsE_of_frame hfr, dropsC_of_frame hfr] at this
   exact this
 
+/-- **C13, the event in flight.** In a propagation of `flush` interrupted by a panicking delivery, the in-flight
+    event `x` has been destroyed exactly once when that delivery is left: with `wpre` the world in which the delivery of
+    `x` started, the state `wl` it left has `x` in the event ledger once — put there by a handler's `take` if the
+    ownership flag is set (then the unwinding guard did not drop it again), by the unwinding guard otherwise — plus at
+    most one entry `rej` for an event that a failing `Sender::send` rejected. `dropQueued` then handles `P ++ wl.queue`,
+    which does not contain `x` (it was popped: `pending_is_everything_undelivered`). Hypothesis: `x`'s registry entry is
+    well formed in the world the flush started in (user events: drop function, normal kind). -/
+theorem flush_panic_inflight_once {w : World} {es : List QItem} {c : String} {log : List Delivery} {x : QItem}
+    {wl : World} {P : List QItem} (h : DfsPanic deliverOne w es (.panic c) log x wl P) (hok : UserEntryOk w x) :
+    ∃ wpre : World, wpre.frame = w.frame ∧ (deliverOne x).run.run { wpre with queue := [] } = (.error (.panic c), wl) ∧
+      ∃ rej : List Nat, rej.length ≤ 1 ∧
+        ((wl.inflightOwned = true ∧ wl.edrops = rej ++ ledgerOf x ++ wpre.edrops) ∨
+         (wl.inflightOwned = false ∧ wl.edrops = ledgerOf x ++ rej ++ wpre.edrops)) := by
+  obtain ⟨wpre, hf, hr⟩ := h.inflight deliverOne_frameStable
+  refine ⟨wpre, hf, hr, ?_⟩
+  have hok' : UserEntryOk { wpre with queue := [] } x := (userEntryOk_of_frame (w2 := w) hf x).mpr hok
+  have := deliverOne_panic_ledger (w := { wpre with queue := [] }) hr hok'
+  exact this
+
 /-! ### non-vacuity: event 0 sends 1 and 2; event 1 sends 3 and then panics; 2 and 3 are dropped by the guard -/
 
 def panicky (it : QItem) : M Unit :=
@@ -218,5 +239,6 @@ example : ((flushWith panicky 5).run.run panickyWorld).2.edrops = [3, 2] := by d
 #print axioms pending_is_everything_undelivered
 #print axioms flush_registry_stable
 #print axioms flush_panic_ledger
+#print axioms flush_panic_inflight_once
 
 end Evenio
